@@ -79,6 +79,7 @@ fn dispatch_case(cx: &mut Ctx, n: u64, case: &Value) {
         "kernel" => ops_kernel::kernel_case(cx, n, case),
         "hull" => ops_hull::hull_case(cx, n, case),
         "simplify" => ops_simplify::simplify_case(cx, n, case),
+        "valid" => ops_valid::valid_case(cx, n, case),
         "poly" => ops_poly::poly_case(cx, n, case),
         "relate" => ops_relate::relate_case(cx, n, case),
         "coordpos" => ops_relate::coordpos_case(cx, n, case),
